@@ -1,11 +1,15 @@
 (* Props/C14.v -- The assembler never crashes, whatever the input.
    PARTIAL BY NATURE: the theorems cover the modelled core from the syntax tree down --
    operand evaluation (division, macro kinds, arity, recursion depth), the relaxation layout
-   (termination within its fuel = bounded time) and emission.  What happens inside pest on an
-   arbitrary string, native stack depth, and the file system are outside any executable
+   (termination within its fuel = bounded time) and emission -- and, above the tree, the statement
+   parser: the PEG model of asm.pest (Model/Peg.v on the generated Gen/AsmGrammar.v) returns pairs or
+   a parse error for EVERY byte string (theorems C14_peg_* at the end; the model is tied to pest by
+   the differential runs peg:* of checks/pegcorr.py).  The conversion of pairs to the tree
+   (parse/mod.rs), native stack depth, and the file system are outside any executable
    model: they are covered by exploration in checks/c14.py (see KNOWN_FINDINGS.txt, D19). *)
 From Verif Require Import Model.Base Model.Ops Model.Expr Model.Asm
-  Proofs.ExprEvalProofs Proofs.AsmLayoutProofs Proofs.AsmTotalProofs.
+  Proofs.ExprEvalProofs Proofs.AsmLayoutProofs Proofs.AsmTotalProofs
+  Model.PegAst Gen.AsmGrammar Model.Peg Proofs.PegProofs.
 Open Scope Z_scope.
 
 (* operand evaluation returns a value or an error value for every expression, every macro
@@ -44,9 +48,61 @@ Example C14_example :
   assemble [ROp (AOp 0x60 (Some (EDivide (ENum 1) (ENum 0))))] = err0 "DivisionByZero".
 Proof. repeat split; vm_compute; reflexivity. Qed.
 
+(* ---- the statement parser (pest) ---- *)
+
+(* asm.pest, as read by the translator, passes the well-formedness check: every rule reference is
+   defined, no rule reaches itself before consuming input (no left recursion, implicit
+   WHITESPACE / COMMENT skips included), no repetition has a body that can match the empty string *)
+Theorem C14_peg_asm_grammar_wf : wf_grammar asm_grammar = true.
+Proof. exact asm_grammar_wf. Qed.
+Print Assumptions C14_peg_asm_grammar_wf.
+
+(* termination of well-formed PEGs, for pest's dialect: for EVERY grammar that passes the check the
+   interpreter returns pairs or a parse error on every input with the fuel
+   enough_fuel = (|input| + 1) * (#rules + 2): it neither runs out of fuel (unbounded recursion of
+   the generated parser) nor repeats an empty match for ever *)
+Theorem C14_peg_total : forall g start input,
+  wf_grammar g = true -> find_rule (compile g) start <> None ->
+  exists o, peg_parse g start input = Ok o.
+Proof. exact peg_parse_total. Qed.
+Print Assumptions C14_peg_total.
+
+Theorem C14_peg_fuel_suffices : forall g start input,
+  wf_grammar g = true ->
+  exists r, peg_parse_fuel (enough_fuel g input) g start input = r /\
+            r <> Panic "out of fuel" /\ r <> Panic "empty repetition".
+Proof. exact peg_parse_fuel_suffices. Qed.
+Print Assumptions C14_peg_fuel_suffices.
+
+(* AsmParser::parse(Rule::program, src), for every byte string: pairs or a parse error *)
+Theorem C14_parser_never_panics : forall input, exists o, parse_program input = Ok o.
+Proof. exact parse_program_total. Qed.
+Print Assumptions C14_parser_never_panics.
+
+(* non-vacuity: the check refuses a left-recursive grammar and an empty repetition, on which the
+   interpreter does panic; the model on a statement with an implicit skip and a comment *)
+Example C14_peg_example :
+  let lrec := [("a", MNormal, PChoice (PSeq (PRef "a") (PStr (str_bytes "x"))) (PStr (str_bytes "y")))] in
+  let erep := [("a", MNormal, PStar (POpt (PStr (str_bytes "x"))))] in
+  wf_grammar lrec = false /\ peg_parse lrec "a" (str_bytes "yx") = Panic "out of fuel" /\
+  wf_grammar erep = false /\ peg_parse erep "a" (str_bytes "y") = Panic "empty repetition" /\
+  run_peg (str_bytes "push1 1 + f(2)# c") =
+    "push:0-14 word_size:4-5 expression:6-14 decimal:6-7 plus:8-9 expression_macro:10-14 function_name:10-11 expression:12-13 decimal:12-13 EOI:17-17"%string /\
+  run_peg (str_bytes "push1  1") = "err"%string.
+Proof. repeat split; vm_compute; reflexivity. Qed.
+
 Check C14_eval_never_panics : forall labels macros fuel vars e s,
   eval labels macros fuel vars e <> Panic s.
 Check C14_layout_terminates : forall macros items, exists w pos, layout macros items = Ok (w, pos).
 Check C14_finish_never_panics : forall macros st s, finish_scope macros st <> Panic s.
 Check C14_assemble_never_panics : forall ops s, assemble ops <> Panic s.
 Check C14_ingest_never_panics : forall ops s, ingest_ast ops <> Panic s.
+Check C14_peg_asm_grammar_wf : wf_grammar asm_grammar = true.
+Check C14_peg_total : forall g start input,
+  wf_grammar g = true -> find_rule (compile g) start <> None ->
+  exists o, peg_parse g start input = Ok o.
+Check C14_peg_fuel_suffices : forall g start input,
+  wf_grammar g = true ->
+  exists r, peg_parse_fuel (enough_fuel g input) g start input = r /\
+            r <> Panic "out of fuel" /\ r <> Panic "empty repetition".
+Check C14_parser_never_panics : forall input, exists o, parse_program input = Ok o.
